@@ -8,7 +8,7 @@ claim(
     "C01",
     "other",
     "Partial (mechanisms 1, 3 and 4, and the unwrap/unreachable sites of mechanism 2 that lie inside the functions listed). Unbounded proof (Verus, requires/ensures/invariant/decreases on the function text extracted by span on every run "
-    "from parse/base.rs, sass.rs, stylesheet.rs, media_query.rs, keyframes.rs, at_root_query.rs, value.rs, lexer.rs, error.rs, lib.rs, common.rs, ast/expr.rs, ast/stmt.rs, parse/css.rs, selector/parse.rs and selector/attribute.rs: 22 units, 172 functions) that the scanner layer of all "
+    "from parse/base.rs, sass.rs, stylesheet.rs, media_query.rs, keyframes.rs, at_root_query.rs, value.rs, lexer.rs, error.rs, lib.rs, common.rs, ast/expr.rs, ast/stmt.rs, parse/css.rs, selector/parse.rs and selector/attribute.rs: 22 units, 173 functions) that the scanner layer of all "
     "three syntaxes - BaseParser's 20 scanning methods incl. declaration_value, the indented syntax's overrides, indentation look-ahead and comment parsers, the "
     "stylesheet parser's interpolation/comment/url/string/almost-any-value/declaration-value scanners, the media-query, keyframes-selector and @at-root query parsers, "
     "the number-literal scanners - and, above it, the @media/@supports/@import grammars, argument declarations and invocations, member lists and `with (..)` configurations, the statement-level block loops "
